@@ -62,7 +62,8 @@ SynsetsOK(T, li, A, o) ==
 \* proposed ILIs carry their definition
 ProposedOK(T, li, A, o) == \A r \in Mine(A.asyn, o) :
   LET y == CHOOSE y \in Of(T.synset, li) : y[4] = r[3] IN
-    r[11] = (IF y[5] = "in" THEN y[11] ELSE "~")
+    /\ r[11] = (IF y[5] = "in" THEN y[11] ELSE "~")
+    /\ r[13] = (IF y[5] = "in" THEN y[12] ELSE "~")      \* ... and its metadata
 \* members: the declared order first, then the remaining senses of the synset
 MembersOK(T, li, A, o) == \A r \in Mine(A.asyn, o) :
   LET y == CHOOSE y \in Of(T.synset, li) : y[4] = r[3]
